@@ -327,5 +327,89 @@ theorem optimizeWith_allLoc (h0 : P {}) (g : Guard) (fl : Flags) (fns : ConstFns
       | error l => rw [hr3] at h3; simp only [ResIn] at h3 ⊢; exact h3
       | ok n3 => rw [hr3] at h3; simp only [ResIn] at h3 ⊢; exact tail _ h3
 
+/-! ### without the 0:0 escape: the passes that replace a node by a fresh *leaf* -/
+
+/-- a fresh literal / constant node that takes over the annotation of the node it replaces carries that node's
+    location and nothing else -/
+theorem allLoc_withMeta_leaf (n : Node) (m : Meta) (hm : P m.loc)
+    (h : (∃ v, n = .int {} v) ∨ (∃ v, n = .float {} v) ∨ (∃ v, n = .str {} v) ∨ (∃ v, n = .const {} v)) :
+    (n.withMeta m).AllLoc P := by
+  rcases h with ⟨v, rfl⟩ | ⟨v, rfl⟩ | ⟨v, rfl⟩ | ⟨v, rfl⟩ <;> simp only [Node.withMeta, Node.AllLoc] <;> exact hm
+
+macro "opt_leaf_branch" hN:ident he:ident hroot:ident : tactic => `(tactic|
+  first
+  | exact ⟨$hN, $he⟩
+  | exact ⟨$hN, errIn_setErr $hroot⟩
+  | (refine ⟨?_, $he⟩; dsimp only
+     first
+     | exact allLoc_withMeta_leaf _ _ $hroot (Or.inl ⟨_, rfl⟩)
+     | exact allLoc_withMeta_leaf _ _ $hroot (Or.inr (Or.inl ⟨_, rfl⟩))
+     | exact allLoc_withMeta_leaf _ _ $hroot (Or.inr (Or.inr (Or.inl ⟨_, rfl⟩)))
+     | exact allLoc_withMeta_leaf _ _ $hroot (Or.inr (Or.inr (Or.inr ⟨_, rfl⟩)))))
+
+theorem foldRule_keepsLoc_exact (fl : Flags) (w : World) : KeepsLoc P (foldRule fl w) := by
+  intro N st hN he
+  have hroot := Node.allLoc_root N hN
+  unfold foldRule
+  repeat' split
+  all_goals opt_leaf_branch hN he hroot
+
+theorem constRangeRule_keepsLoc_exact (fl : Flags) : KeepsLoc P (constRangeRule fl) := by
+  intro N st hN he
+  have hroot := Node.allLoc_root N hN
+  unfold constRangeRule
+  split
+  · split
+    · dsimp only
+      repeat' split
+      all_goals opt_leaf_branch hN he hroot
+    · exact ⟨hN, he⟩
+  · exact ⟨hN, he⟩
+
+theorem constExprRule_keepsLoc_exact (fl : Flags) (fns : ConstFns) (w : World) :
+    KeepsLoc P (constExprRule fl fns w) := by
+  intro N st hN he
+  have hroot := Node.allLoc_root N hN
+  unfold constExprRule
+  repeat' split
+  all_goals opt_leaf_branch hN he hroot
+
+theorem guarded_off_keepsLoc (g : Guard) (p : Pass) (r : Rule) (h : ∀ N, g p N = false) : KeepsLoc P (guarded g p r) := by
+  intro N st hN he
+  simp only [guarded, h N]
+  exact ⟨hN, he⟩
+
+/-- **no escape without the membership rewrites**: with the in-array and in-range rewrites switched off (guard `g`),
+    every node of the optimised tree — and the error — is at the location of a node of the tree given; no assumption
+    about 0:0.  Folding, constant ranges and `ConstExpr` results replace a node by a leaf that takes its location. -/
+theorem optimizeWith_allLoc_exact (g : Guard) (hA : ∀ N, g .inArray N = false) (hR : ∀ N, g .inRange N = false)
+    (fl : Flags) (fns : ConstFns) (w : World) (n : Node) (hn : n.AllLoc P) : ResIn P (optimizeWith g fl fns w n) := by
+  unfold optimizeWith
+  have h1 := (walk_allLoc fl.walkSliceNode _ (guarded_off_keepsLoc g .inArray (inArrayRule fl) hA) n {} hn errIn_init).1
+  have h2 := repeatPass_allLoc fl.walkSliceNode _ (guarded_keepsLoc g .fold _ (foldRule_keepsLoc_exact fl w)) foldWalks _ h1
+  simp only [bind, Except.bind, pure, Except.pure]
+  cases hr2 : repeatPass fl.walkSliceNode (guarded g .fold (foldRule fl w)) foldWalks
+      (walk fl.walkSliceNode (guarded g .inArray (inArrayRule fl)) n {}).1 with
+  | error l => rw [hr2] at h2; exact h2
+  | ok n2 =>
+    rw [hr2] at h2
+    simp only [ResIn] at h2
+    simp only []
+    have tail : ∀ n3 : Node, n3.AllLoc P →
+        (walk fl.walkSliceNode (guarded g .constRange (constRangeRule fl))
+          (walk fl.walkSliceNode (guarded g .inRange (inRangeRule fl)) n3 {}).1 {}).1.AllLoc P := by
+      intro n3 h3
+      have h4 := (walk_allLoc fl.walkSliceNode _ (guarded_off_keepsLoc g .inRange (inRangeRule fl) hR) n3 {} h3
+        errIn_init).1
+      exact (walk_allLoc fl.walkSliceNode _ (guarded_keepsLoc g .constRange _ (constRangeRule_keepsLoc_exact fl)) _ {} h4
+        errIn_init).1
+    split
+    · simp only [ResIn]; exact tail _ h2
+    · have h3 := repeatPass_allLoc fl.walkSliceNode _
+        (guarded_keepsLoc g .constExpr _ (constExprRule_keepsLoc_exact fl fns w)) constExprWalks _ h2
+      cases hr3 : repeatPass fl.walkSliceNode (guarded g .constExpr (constExprRule fl fns w)) constExprWalks n2 with
+      | error l => rw [hr3] at h3; simp only [ResIn] at h3 ⊢; exact h3
+      | ok n3 => rw [hr3] at h3; simp only [ResIn] at h3 ⊢; exact tail _ h3
+
 end OptProofs
 end ExprModel
